@@ -1,6 +1,6 @@
 //! Global allocator wrapper: tracks the objects flurry allocates through `Shared::boxed`
 //! (announced by the BOXED pre-hook) and, while tracking is on, *quarantines* them when they are
-//! freed instead of returning the memory: the block stays mapped and untouched, so
+//! freed instead of returning the memory: the block stays mapped (filled with 0xDE), so
 //!   * an access the hooks announce to an address inside a quarantined block is a genuine
 //!     use-after-free (the allocator can never have re-issued the address), and
 //!   * a checksum taken at free time detects writes through stale references at the end of the run.
@@ -160,6 +160,9 @@ unsafe impl GlobalAlloc for QAlloc {
                 }
                 if t.ents[i].start == p as usize && !t.ents[i].freed {
                     t.ents[i].freed = true;
+                    // poison: a read through a stale pointer sees 0xDE.. (a non-canonical address when
+                    // it is followed as a pointer), a write is found by the checksum at the end
+                    std::ptr::write_bytes(p, 0xDE, layout.size());
                     t.ents[i].sum = checksum(p as usize, layout.size());
                     t.ents[i].seq = FREE_SEQ.fetch_add(1, Ordering::Relaxed) + 1;
                     unlock();
